@@ -1901,7 +1901,8 @@ class CompFamily:
                     rp = os.path.join(vlib.ROOT, "replays", f"C19-{vlib.sha(name + label + str(seed))}.json")
                     json.dump({"property": "C19", "family": "compliance", "test": name, "run": label, "permutation_seed": seed, "election_base": base,
                                "default_ni": dn, "vrf": vn, "ran_before": order[:idx], "msg": e.get("msg")}, open(rp, "w"), indent=1)
-                    res.violations.append({"replay": rp, "what": f"compliance test {name!r} failed against the conformant reference server in run {label} (after {order[idx-1] if idx else 'nothing'!r}; election base {base}, instances {dn}/{vn}): {e.get('msg')}"})
+                    where = "as the first and only test of a run" if label == "first-of-run" else f"after {order[idx-1] if idx else 'nothing'!r}"
+                    res.violations.append({"replay": rp, "what": f"compliance test {name!r} failed against the conformant reference server in run {label} ({where}; election base {base}, instances {dn}/{vn}): {e.get('msg')}"})
             other = collections.Counter()
             for (ln, ev, comps) in mism:
                 if any(a <= ln <= b for (a, b) in overlapped):
@@ -1924,6 +1925,14 @@ class CompFamily:
             order = judge_suite(trace, f"suite{k}", seed, base, dn, vn)
             if len(samples) < 2:
                 samples.append({"permutation_seed": seed, "election_base": base, "default_ni": dn, "vrf": vn, "first_tests": order[:6]})
+        # every test as the first and only test of a run with the default starting election id (quick: the tests that
+        # deal with election ids and flushes, where the suite's id arithmetic lives)
+        trace = os.path.join(ctx.work, "first.ndjson")
+        args = ["comp-run", "-each", "-base", "1", "-out", trace] + (["-only", "lection|Flush|master|primary"] if quick else [])
+        p = ctx.run_vh(args, timeout=3000)
+        if p.returncode != 0:
+            raise Infra("vh comp-run -each failed: " + p.stdout[-1500:] + p.stderr[-3000:])
+        first_order = judge_suite(trace, "first-of-run", 0, 1, "DEFAULT", "NON-DEFAULT-VRF")
         # directed orders: a test that leaves entries behind is run right before every other test of its server
         # (tests that read the RIB back first); nothing to do when every test cleans up
         directed = []
